@@ -244,7 +244,7 @@ package crypto
 // ---- rebuilding a bit-field from its byte form: for EVERY byte string the recomputed size is
 // the number of set bits (so the set equals the original and Len counts its members).
 //@ pure func popbelow(x byte, k int) int = b2i(k > 0 && bit(x,0)) + b2i(k > 1 && bit(x,1)) + b2i(k > 2 && bit(x,2)) + b2i(k > 3 && bit(x,3)) + b2i(k > 4 && bit(x,4)) + b2i(k > 5 && bit(x,5)) + b2i(k > 6 && bit(x,6)) + b2i(k > 7 && bit(x,7))
-//@ func BitfieldFromBytes property C19,C10
+//@ func BitfieldFromBytes property C19,C10,C12
 //@   mode bytebv
 //@   inline RangeWhile, ForEach
 //@   requires len(b) <= 268435456
